@@ -144,7 +144,18 @@ func mkWinRow(o wop, keyed bool) map[string]any {
 		m["ts"] = carriedTs(o.ts)
 	}
 	if keyed {
-		m["k"] = o.key
+		// key tokens 90 / 91 stand for the NULL group (explicit nil or missing column, alternating) and for the empty
+		// string: NULL forms its own group, apart from "" (the model sees two ordinary distinct keys)
+		switch o.key {
+		case "90":
+			if o.id%2 == 0 {
+				m["k"] = nil
+			}
+		case "91":
+			m["k"] = ""
+		default:
+			m["k"] = o.key
+		}
 	}
 	return m
 }
@@ -176,11 +187,18 @@ func rowID(r types.Row) int64 {
 
 func rowKey(r types.Row) string {
 	if m, ok := r.Data.(map[string]any); ok {
-		if v, ok := m["k"].(string); ok {
-			return v
+		v, present := m["k"]
+		if !present || v == nil {
+			return "90"
+		}
+		if s, ok := v.(string); ok {
+			if s == "" {
+				return "91"
+			}
+			return s
 		}
 	}
-	return ""
+	return "90"
 }
 
 // runWin executes ops on the real window and returns the trace of observable events in
